@@ -24,7 +24,7 @@ func ReadMetrics(ctx context.Context, r io.Reader) Iterator {
 		closer:  cancel,
 		chunks:  ReadChunks(iterctx, r),
 		flatten: true,
-		pipe:    make(chan *birch.Document, 100),
+		pipe:    make(chan documentWithMetadata, 100),
 		catcher: util.NewCatcher(),
 	}
 
@@ -41,7 +41,7 @@ func ReadStructuredMetrics(ctx context.Context, r io.Reader) Iterator {
 		closer:  cancel,
 		chunks:  ReadChunks(iterctx, r),
 		flatten: false,
-		pipe:    make(chan *birch.Document, 100),
+		pipe:    make(chan documentWithMetadata, 100),
 		catcher: util.NewCatcher(),
 	}
 
@@ -61,7 +61,7 @@ func ReadMatrix(ctx context.Context, r io.Reader) Iterator {
 	iter := &matrixIterator{
 		closer:  cancel,
 		chunks:  ReadChunks(iterctx, r),
-		pipe:    make(chan *birch.Document, 25),
+		pipe:    make(chan documentWithMetadata, 25),
 		catcher: util.NewCatcher(),
 	}
 
@@ -98,7 +98,7 @@ func ReadSeries(ctx context.Context, r io.Reader) Iterator {
 	iter := &matrixIterator{
 		closer:  cancel,
 		chunks:  ReadChunks(iterctx, r),
-		pipe:    make(chan *birch.Document, 25),
+		pipe:    make(chan documentWithMetadata, 25),
 		catcher: util.NewCatcher(),
 		reflect: true,
 	}
